@@ -61,6 +61,9 @@ type capCase struct {
 	Mask  uint32   `json:"caps_mask"`
 	Names []string `json:"caps"`
 	Kitty bool     `json:"xtversion_kitty,omitempty"`
+	// RPM4: private modes the terminal does not support are reported as
+	// "permanently reset" (DECRPM status 4) instead of "not recognised" (0)
+	RPM4 bool `json:"unsupported_modes_report_4,omitempty"`
 }
 
 func names(mask uint32) []string {
@@ -108,6 +111,9 @@ func runCaps(w *harness.W, cc capCase) {
 		t.R, t.C = 3, 1 // prior cursor in column 2: exposes dependence on it
 		t.AppID = "prior-app"
 		t.UserCursorShape = 3
+		if cc.RPM4 {
+			t.UnsupportedModeReport = 4
+		}
 	})
 	if err != nil {
 		w.Violation("new-failed", err.Error(), cc, err.Error(), "nil")
@@ -118,7 +124,7 @@ func runCaps(w *harness.W, cc capCase) {
 		return
 	}
 	vx := sess.Vx
-	w.Case(fmt.Sprintf("caps|%d|%v", cc.Mask, cc.Kitty))
+	w.Case(fmt.Sprintf("caps|%d|%v|%v", cc.Mask, cc.Kitty, cc.RPM4))
 	w.Count("sessions", 1)
 	// Can* accessors
 	type pair struct {
@@ -354,7 +360,7 @@ func (c check) Run(w *harness.W, b harness.Batch) {
 			}
 		}
 		for i, m := range masks {
-			runCaps(w, capCase{Mask: m, Names: names(m), Kitty: i%5 == 4})
+			runCaps(w, capCase{Mask: m, Names: names(m), Kitty: i%5 == 4, RPM4: i%3 == 1})
 		}
 	case "colours":
 		runColours(w, s, r, w.Tier)
